@@ -29,6 +29,7 @@ type HexCase struct {
 	Want    []byte `json:"want"`
 	Corrupt bool   `json:"corrupt"`        // the text contains one non-hex, non-space character outside comments
 	Bulk    string `json:"bulk,omitempty"` // kind of the long line, if the text has one
+	Odd     bool   `json:"odd,omitempty"`  // the corruption is a dropped hex digit (odd digit count)
 }
 
 func oracleHex(c *HexCase) (f *ev.Failure) {
@@ -112,6 +113,31 @@ func genHexPart(t *rapid.T, sb *strings.Builder) []byte {
 	return data
 }
 
+// dropOneDigit removes one hex digit that lies outside every comment.
+func dropOneDigit(t *rapid.T, text string) (string, bool) {
+	var pos []int
+	inComment := false
+	for i := 0; i < len(text); i++ {
+		ch := text[i]
+		switch {
+		case ch == '\n':
+			inComment = false
+		case ch == ';':
+			inComment = true
+		case !inComment && (ch >= '0' && ch <= '9' || ch >= 'a' && ch <= 'f' || ch >= 'A' && ch <= 'F'):
+			pos = append(pos, i)
+		}
+	}
+	if len(pos) == 0 {
+		return text, false
+	}
+	i := pos[len(pos)-1]
+	if rapid.IntRange(0, 2).Draw(t, "oddlast") != 0 {
+		i = rapid.SampledFrom(pos).Draw(t, "oddpos")
+	}
+	return text[:i] + text[i+1:], true
+}
+
 // bulkLens: physical line lengths around the buffer sizes text readers commonly use (4 KiB, 64 KiB) and beyond.
 var bulkLens = []int{1000, 4095, 4096, 4097, 65534, 65535, 65536, 65537, 70000, 131072, 200001}
 
@@ -163,6 +189,14 @@ func genHexCase(t *rapid.T) *HexCase {
 	c := &HexCase{Text: sb.String(), Want: data, Bulk: bulk}
 	if c.Want == nil {
 		c.Want = []byte{}
+	}
+	if len(data) > 0 && bulk == "" && rapid.IntRange(0, 7).Draw(t, "odd") == 0 {
+		// drop one hex digit outside the comments: an odd number of digits denotes no byte sequence at all and
+		// must be rejected - wherever the dangling digit sits (1 in 3: in the very last byte of the text)
+		if t2, ok := dropOneDigit(t, c.Text); ok {
+			c.Text, c.Corrupt, c.Odd = t2, true, true
+			return c
+		}
 	}
 	if rapid.IntRange(0, 3).Draw(t, "corrupt") == 0 {
 		// insert one offending character outside any comment: at the very start of a line
@@ -576,7 +610,7 @@ func sanitizeStrings(c *DumpCase) {
 	}
 }
 
-const ruleC20 = "(hex) random byte strings rendered with random digit case, spaces/tabs/CR anywhere incl. between the two digits of a byte, line breaks at byte boundaries, ';' comments containing arbitrary text incl. ';' and hex digits, comment-only lines, 1 in 10 with one physical line of 1000 .. 200001 bytes (sizes around 4 KiB and 64 KiB; hex digits, a long comment, a whitespace run or a comment-only line) between two ordinary parts; 1 in 4 corrupted with one non-hex non-space character outside comments (must be rejected); oracle: ParseAnnotatedHex(render(b)) == b. " +
+const ruleC20 = "(hex) random byte strings rendered with random digit case, spaces/tabs/CR anywhere incl. between the two digits of a byte, line breaks at byte boundaries, ';' comments containing arbitrary text incl. ';' and hex digits, comment-only lines, 1 in 10 with one physical line of 1000 .. 200001 bytes (sizes around 4 KiB and 64 KiB; hex digits, a long comment, a whitespace run or a comment-only line) between two ordinary parts; 1 in 4 corrupted with one non-hex non-space character outside comments, 1 in 8 with one hex digit dropped (odd digit count) - both must be rejected; oracle: ParseAnnotatedHex(render(b)) == b. " +
 	"(protodump) generated wire sequences (nesting depth <= 3, all four wire types, numbers up to 2^29-1, 1 in 8 length-delimited payloads 63..4097 bytes long), 1 in 4 mutated, x random disjoint -expand/-strings path sets over present and absent paths; dumpProto (working-tree source compiled into the harness) and the built binary (-file, stdin pipe, stdin file) are read by a tolerant reader into (depth, number, wire type, value) entries == refwire walk recursing into exactly the expand paths; malformed => error, never a panic. " +
 	"non-trivial = hex text with >= 1 comment and >= 1 line break; dump input with >= 1 length-delimited field and >= 1 path; distinct by text / (input, paths)"
 
@@ -595,6 +629,9 @@ func TestC20(t *testing.T) {
 		}
 		if c.Bulk != "" {
 			rec.Class("hex/long-line/" + c.Bulk)
+		}
+		if c.Odd {
+			rec.Class("hex/odd-digit-count")
 		}
 		if strings.Contains(c.Text, ";") && strings.Contains(c.Text, "\n") {
 			rec.NonTrivial(ev.FP("hex", c.Text))
